@@ -109,8 +109,30 @@ def frame_violations(paths, base, allowed_fields):
     return sorted(set(out))
 
 
+def check_no_guard_dropped_in_ctor(ctx, F, guard_adt, new):
+    """A guard value whose Drop undoes the constructor's effect must not be dropped *inside* the constructor (e.g. on an
+    early `return Err(..)` after the value was built): its Drop would pop words that were never pushed."""
+    if not guard_adt or new is None:
+        return
+    key = 'R5/no-guard-dropped-in-ctor/' + guard_adt
+    role = 'the guard constructor never drops a guard value (its Drop would undo work that was not done)'
+    ev, paths = rules.evaluate(new)
+    hits = []
+    for r in paths or []:
+        for e in r.events:
+            if e['kind'] == 'drop' and (e.get('ty') or '').split('<')[0] == guard_adt:
+                hits.append((r, e))
+    if hits:
+        r, e = hits[0]
+        ctx.bad('R5', role, new.defpath, 'a path of the constructor drops a %s (at %s, path ends in %s): the undo in Drop runs although the constructor did not (fully) apply its effect, so words that belong to the coder are removed' % (
+            guard_adt.rsplit('::', 1)[-1], (e.get('span') or '?').split('-')[0], 'an error return' if r.end == 'return' and rules.ret_shape(r.ret)[0] == 'Err' else r.end), key=key, loc=rules.loc(new))
+    else:
+        ctx.ok('R5', role, new.defpath, 'no drop of a %s on any of %d paths' % (guard_adt.rsplit('::', 1)[-1], len(paths or [])), key=key)
+
+
 def check_coder_guard(ctx, F):
     g, new, drop = anchors.guard_of(F, ANS, 'get_compressed')
+    check_no_guard_dropped_in_ctor(ctx, F, g, new)
     key = 'R5/guard-pairing/stream::stack::CoderGuard'
     role = 'guard pops exactly the words it appended'
     if not new or not drop:
@@ -227,6 +249,7 @@ def check_encoder_guard(ctx, F):
     if missing:
         ctx.bad('R5', 'anchor', base, 'missing: ' + ', '.join(missing), key='R5/anchor/' + base)
         return
+    check_no_guard_dropped_in_ctor(ctx, F, parts.get('guard'), new)
     bulk = (1, 'deref', ('f', 'bulk'))
     evs, ps = rules.evaluate(seal)
     evn, pnsw = rules.evaluate(nsw)
@@ -358,6 +381,7 @@ def check_bit_guards(ctx, F):
             continue
         ctx.touch(new)
         ctx.touch(drop)
+        check_no_guard_dropped_in_ctor(ctx, F, gname, new)
         evn, pn = rules.evaluate(new)
         evd, pd = rules.evaluate(drop)
         inner = (1, 'deref', ('f', 'inner'), 'deref')
